@@ -86,6 +86,18 @@ CLAIMS = {
         'technique': 'Lean 4 proof (state-machine simulation of the colour stack) + translator tables + differential correspondence over all styles + SGR decoder oracle',
         'design_ref': 'DESIGN.md section 5, C16',
     },
+    'C13': {
+        'text': "Lean model of printing an object graph with the visited set (unfold, total by well-founded recursion on the number of objects not on the current path — this IS the termination claim for every finite graph); theorems C13.marker_iff_on_path (a container becomes a recursion marker exactly when it is reached again while being printed, and nowhere else), shared_printed_in_full, marker_text (names type and identity), no_residue. Tied to /repo by printing real list/dict/tuple graphs (all 2-node graphs with <= 2 children, sampled 3-node graphs, random graphs of 3-12 nodes, witnesses) at two widths, printing them again and re-printing the previous value; the text is compared with the model (real id() digits substituted) and the marker/bracket sequence with an independent path-based DFS. F10 repaired.",
+        'note': "the visited set is modelled as the current DFS path, which is what the try/finally of the F10 repair guarantees; a regression of that repair shows as a correspondence failure and in the fixed-finding replay",
+        'technique': 'Lean 4 proof (well-founded unfolding of a graph, marker characterisation) + differential correspondence + reference-DFS oracle',
+        'design_ref': 'DESIGN.md section 5, C13',
+    },
+    'C14': {
+        'text': "Lean theorem C14.contained: for EVERY tree of instrumented objects and EVERY invocation index k inside it, if the k-th printer invocation raises, printing returns the fault-free result with exactly that value replaced by its repr and exactly one warning naming that value's printer (run_fault / run_noFault by mutual structural induction with the invocation counter generalised); fault_free, independent, bad_return (ValueError at top level), bad_return_nested. Tied to /repo by running every tree of <= 4 (thorough 5) objects x every invocation index x exception classes incl. TypeError x {plain, under trailing_comment} x printers with / without a trailing_comment parameter, bad return values at every index and sampled fault pairs, each followed by a fault-free call; observed: which values fell back to repr (parsed from the output), which printers the warnings name, escaping ValueError. F10, F11 repaired.",
+        'note': "faults are injected at printer entry; the model does not distinguish exception classes (the correspondence does)",
+        'technique': 'Lean 4 proof (mutual induction over trees, invocation counter) + exhaustive fault enumeration as correspondence',
+        'design_ref': 'DESIGN.md section 5, C14',
+    },
     'C04': {
         'text': "Lean theorems C04.sound / sound_plain (the stack machine's output is a rendering of the document in the reference semantics Lay, for every document, width, ribbon and both strategies), ann_balanced (push/pop well bracketed), render_trim (the renderer only trims trailing whitespace), with lay_normalize (Lay closed under normalisation). The model is tied to /repo by exact comparison of SDoc streams and rendered text on all documents <= 4 (thorough: 5) nodes x 96 configurations plus seeded random documents. The forcing clause for bare hardline is known finding K1.",
         'note': "trusted: Lean kernel; model = code only on the explored inputs; ribbon fractions restricted to float-exact ones; FlatChoice lazy normalisation modelled as a pure function",
